@@ -4,9 +4,9 @@
     for greedy, round-robin, multifit, KK, complete greedy (all switches, limits), DP, CBLDM, the four fit packers and the three
     covers.  Together with C01/C03/C05 on the named run this is the whole property.  Complete KK de-duplicates by sorted item
     NAMES, so its exact equation is false (Example ckk_names_exact_false: contents differ); proved instead: equal objective value
-    for every k and equal sums for k = 2 (PARTIAL; sums for k >= 3, snp, rnp are tested).  Bin completion on named items is a
-    known finding (bc-named-items).  Statements only; proofs in Proofs/{Greedy,Packing,Covering,DP,Names,Multifit}Proofs.v. *)
-From Prtpy Require Import Base.Prelude Model.Binner Model.Objectives Model.Greedy Model.Packing Model.Covering Model.KK Model.CG Model.DP Model.CBLDM Model.Multifit Spec.Partition Proofs.GreedyProofs Proofs.PackingProofs Proofs.CoveringProofs Proofs.DPProofs Proofs.KKProofs Proofs.CKKOptimal Proofs.NamesProofs Proofs.MultifitProofs.
+    for every k and equal sums for k = 2 (PARTIAL; sums for k >= 3, snp, rnp are tested).  Bin completion on named items (repaired code:
+    value-level search, then relabelling) is modelled in Model/BinCompletionNamed.v and proved like the others.  Statements only; proofs in Proofs/{Greedy,Packing,Covering,DP,Names,Multifit}Proofs.v. *)
+From Prtpy Require Import Base.Prelude Model.Binner Model.Objectives Model.Greedy Model.Packing Model.Covering Model.KK Model.CG Model.DP Model.CBLDM Model.Multifit Spec.Partition Proofs.GreedyProofs Proofs.PackingProofs Proofs.CoveringProofs Proofs.DPProofs Proofs.KKProofs Proofs.CKKOptimal Proofs.NamesProofs Proofs.MultifitProofs Model.BinCompletion Model.BinCompletionNamed Proofs.BCNamedProofs.
 
 Theorem C07_greedy_names :
   forall (A : Type) (valueof : A -> Z) (k : nat) (items : list A),
@@ -133,4 +133,22 @@ Theorem C07_ckk_names_sums_2_partial :
   ckk (fun v : Z => v) (fun v : Z => v) true 2 (map valueof items) = Ok b' -> sums b = sums b'.
 Proof. exact @ckk_names_sums_2. Qed.
 Print Assumptions C07_ckk_names_sums_2_partial.
+
+(** bin completion on named items (search on the values, names put back): projects to the value-level run *)
+Theorem C07_bin_completion_names :
+  forall (A : Type) (valueof : A -> Z) (C : Z) (fuel : nat) (items : list A),
+  Forall (fun x : A => 0 <= valueof x) items ->
+  rmap (map_bins valueof) (bin_completion_named valueof true C fuel items) =
+  bin_completion true C fuel (map valueof items).
+Proof. exact @bc_named_names. Qed.
+Print Assumptions C07_bin_completion_names.
+
+(** ... and is a feasible packing of the NAMES *)
+Theorem C07_bin_completion_named_packing :
+  forall (A : Type) (valueof : A -> Z) (C : Z) (fuel : nat) (items : list A) (b : bins A),
+  Forall (fun x : A => 0 <= valueof x) items ->
+  bin_completion_named valueof true C fuel items = Ok b ->
+  is_packing valueof C (filter (nonzero_item valueof) items) b /\ all_nonempty b.
+Proof. exact @bc_named_packing. Qed.
+Print Assumptions C07_bin_completion_named_packing.
 
